@@ -220,6 +220,11 @@ func verifNewPtrWorld(mode int) *verifPtrWorld {
 			w.elem = nil
 			w.P = types.Typ[types.String]
 		}
+		if mode == 4 {
+			// the tracked allocations are cells holding a string: elem = string, P = *string
+			w.elem = types.Typ[types.String]
+			w.P = types.NewPointer(w.elem)
+		}
 	}
 	w.PP = types.NewPointer(w.P)
 	w.S = types.NewStruct([]*types.Var{
@@ -1050,21 +1055,31 @@ func VerifBuildFlowProgram(share int, shareFirst bool, t int, variant int, store
 	return verifBuildFlowProgram(share, shareFirst, t, variant, storeForm, []int{cellT}, []int{cellVariant})
 }
 
+// VerifFlowStringData makes the next flow program built carry a string instead of a *N (set and reset by harnesses).
+var VerifFlowStringData bool
+
 func verifBuildFlowProgram(share int, shareFirst bool, t int, variant int, storeForm int, cellTs, cellVariants []int) *VerifFlowWorld {
 	cellT := -1
 	if len(cellTs) > 0 {
 		cellT = cellTs[0]
 	}
+	stringData := VerifFlowStringData
 	mode := 1
+	if stringData {
+		mode = 3
+	}
 	if cellT >= 0 {
 		mode = 2 // the transports move the cell's address instead of the data
+		if stringData {
+			mode = 4
+		}
 		t = -1
 	}
 	w := verifNewPtrWorld(mode)
 	out := &VerifFlowWorld{Prog: w.prog, Funcs: w.funcs}
-	// D: type of the data (*N); C: type of the cell's address (**N); CC: ***N
+	// D: type of the data (*N or string); C: type of the cell's address; CC: pointer to C
 	D, C := w.P, w.PP
-	if mode == 2 {
+	if mode == 2 || mode == 4 {
 		D, C = w.elem, w.P
 	}
 	CC := types.Type(types.NewPointer(C))
@@ -1074,7 +1089,12 @@ func verifBuildFlowProgram(share int, shareFirst bool, t int, variant int, store
 	{
 		sFn, sBlocks, sCur, sCurB := w.fn, w.blocks, w.cur, w.curB
 		w.beginFn(src)
-		a := w.alloc(D.(*types.Pointer).Elem(), "secret")
+		var a ssa.Value
+		if stringData {
+			a = ssa.NewConst(constant.MakeString("secret"), D)
+		} else {
+			a = w.alloc(D.(*types.Pointer).Elem(), "secret")
+		}
 		w.emit(&ssa.Return{Results: []ssa.Value{a}})
 		w.endFn()
 		w.fn, w.blocks, w.cur, w.curB = sFn, sBlocks, sCur, sCurB
@@ -1088,7 +1108,11 @@ func verifBuildFlowProgram(share int, shareFirst bool, t int, variant int, store
 	mainFn := w.newFn("main", w.sig(nil, nil))
 	out.Main = mainFn
 	w.beginFn(mainFn)
-	w.A[1] = w.alloc(w.elem, "other")
+	if mode == 3 {
+		w.A[1] = ssa.NewConst(constant.MakeString("other"), w.P)
+	} else {
+		w.A[1] = w.alloc(w.elem, "other")
+	}
 	cell := w.alloc(D, "cell")
 	doShare := func() {
 		switch share {
@@ -1225,6 +1249,20 @@ func VerifGlobalReadThroughCopy(t int) bool {
 
 // VerifClosureTransport reports whether transport t moves the data through a closure (bound by value or by reference).
 func VerifClosureTransport(t int) bool { return t == ptCallClosure || t == ptClosureCell }
+
+// VerifTransportThroughCall reports whether the value produced by transport t is the result of a call (or is read
+// from memory written by a callee): the traversal reaches main's later uses of it by returning from that callee.
+func VerifTransportThroughCall(t int) bool {
+	switch t {
+	case ptCallDirect, ptCallFuncValue, ptCallInvoke, ptCallSwap, ptInvokeCallback, ptCellViaHelper, ptCallViaLibrary,
+		ptGlobalViaIface, ptGlobalViaReturn:
+		return true
+	}
+	return false
+}
+
+// VerifByValueClosure reports whether transport t binds the data itself (not its address) in a closure.
+func VerifByValueClosure(t int) bool { return t == ptCallClosure }
 
 // VerifSequentialTransport reports whether transport t is an explicit data operation of the sequential fragment
 // (no goroutine, channel or select involved).
